@@ -50,6 +50,7 @@ extern "C" {
   uint64_t vf_nondet_u64(void) { return draw(); }
   void vf_havoc(void* p, uint64_t n) { for (uint64_t i = 0; i < n; i++) ((uint8_t*)p)[i] = (uint8_t)draw(); }
   void vf_end(void) { finish("VF-END", 0); }
+  uint64_t vf_buffer_room(const void*) { return UINT64_MAX; }
 
   uint8_t* vfs_data(int i) { return g_files[i].data; }
   void vfs_set(int i, const char* name, int exists, uint64_t size) { g_files[i].name = name; g_files[i].exists = exists; g_files[i].size = size; }
